@@ -54,6 +54,8 @@ type driver struct {
 	byLow map[string][]string   // normalised name -> exact names
 	toks  []string
 	pos   int
+	pre   []byte // one-shot prefix of the next ENC's output buffer
+	skip  int    // one-shot number of input bytes read before the next DEC
 }
 
 var codecType = reflect.TypeOf((*codec.BinaryCodec)(nil)).Elem()
@@ -482,6 +484,20 @@ func Serve(types map[string]func() any, in io.Reader, outw io.Writer) {
 			d.enc(out, id, toks[2:])
 		case "DEC":
 			d.dec(out, id, toks[2:])
+		case "PRE":
+			// one-shot: the next ENC finds these bytes already in the output buffer
+			d.pre = nil
+			if len(toks) > 2 {
+				d.pre, _ = hex.DecodeString(toks[2])
+			}
+			fmt.Fprintf(out, "OK %s\n", id)
+		case "SKIP":
+			// one-shot: the next DEC starts after this many bytes of its input have been read
+			d.skip = 0
+			if len(toks) > 2 {
+				d.skip, _ = strconv.Atoi(toks[2])
+			}
+			fmt.Fprintf(out, "OK %s\n", id)
 		case "UNREG", "REG":
 			// the application changes the checksum registry between messages
 			if len(toks) > 2 {
@@ -524,6 +540,8 @@ func (d *driver) enc(out *bufio.Writer, id string, toks []string) {
 		return
 	}
 	var buf bytes.Buffer
+	buf.Write(d.pre)
+	d.pre = nil
 	if msg, _ := guarded(func() error { return bc.Encode(&buf) }); msg != "" {
 		fmt.Fprintf(out, "ERR %s error %s\n", id, oneline(msg))
 		return
@@ -565,6 +583,8 @@ func (d *driver) dec(out *bufio.Writer, id string, toks []string) {
 		return
 	}
 	buf := bytes.NewBuffer(data)
+	buf.Next(d.skip)
+	d.skip = 0
 	if msg, _ := guarded(func() error { return bc.Decode(buf) }); msg != "" {
 		fmt.Fprintf(out, "ERR %s error %s\n", id, oneline(msg))
 		return
